@@ -40,6 +40,18 @@ fn run_generic(mode: Mode, args: &Args, prefix: &str, rule: &str) {
 		let cx = &mut cx;
 		for_all_types!(run_type, cx);
 	}
+	if mode == Mode::C09 && args.only.is_none() {
+		// the known finding F4, re-confirmed with a capped count: a zero-wire element type
+		// makes the allocation follow the claimed count (2^20 elements from a 4-byte input)
+		use parity_scale_codec::{Compact, Decode, Encode};
+		let inp = Compact(1u32 << 20).encode();
+		let m = alloc::Meter::start();
+		let r = <Vec<Box<()>>>::decode(&mut &inp[..]).map(|v| v.len());
+		let u = m.stop();
+		cx.oracle.check(u.peak <= 64 * 1024, "heap-use-exceeds-input-bound/zero-wire-element", || {
+			format!("Vec<Box<()>>\talloc\t1\t{}\tinput=slice\tlen={}\tpeak_live={}\tdecoded={:?}", hex(&inp), inp.len(), u.peak, r.ok())
+		});
+	}
 	if mode == Mode::C18 && args.only.is_none() {
 		gen::len_cases(&mut cx);
 	}
